@@ -400,7 +400,7 @@ def run(tier: str, seed: int) -> dict:
                 for depthing in ((False,) if (quick and s) else (False, True)):
                     if clock.used() > clock.limit * 0.7:
                         break
-                    guarded(f"B {kind}", 12 if quick else 40, _part_b, kind, gname, gdesc, classes, start, depthing, seed * 613 + s, found, stats, 300 if quick else 3000)
+                    guarded(f"B {kind}", 4 if quick else 40, _part_b, kind, gname, gdesc, classes, start, depthing, seed * 613 + s, found, stats, 300 if quick else 3000)
                     n_b += 1
     parts["B_operation_sequences"] = n_b
 
@@ -414,7 +414,7 @@ def run(tier: str, seed: int) -> dict:
                 for kind in REPS:
                     if clock.over():
                         break
-                    guarded(f"C {alg} x {kind}", 10, _part_c, alg, kind, gname, gdesc, classes, start, seed * 613 + s, found, stats)
+                    guarded(f"C {alg} x {kind}", 3 if quick else 10, _part_c, alg, kind, gname, gdesc, classes, start, seed * 613 + s, found, stats)
                     n_c += 1
     parts["C_searches"] = n_c
 
